@@ -13,6 +13,7 @@ C = "jaxtyping/_config.py"
 I = "jaxtyping/__init__.py"
 X = "jaxtyping/_ipython_extension.py"
 T = "jaxtyping/_pytest_plugin.py"
+TG = "jaxtyping/_typeguard/__init__.py"
 DOC = "docs/api/array.md"
 
 SEEDS = {}
@@ -1005,6 +1006,12 @@ SEEDS["C14_trailing_hash_tested_after_stripping"] = ("C14", [(A, """        if e
                 dim_type = _DimType.named""")], "C14.4")
 SEEDS["C17_push_drops_some_arguments_by_value"] = ("C17", [(S, """    memos = ({}, {}, {}, arguments.copy())""", """    memos = ({}, {}, {}, {k: v for k, v in arguments.items() if not hasattr(v, "aval")})""")], "C17.2")
 TWINS["C17_twin_push_copies_by_comprehension"] = ("C17", [(S, """    memos = ({}, {}, {}, arguments.copy())""", """    memos = ({}, {}, {}, {k: v for k, v in arguments.items()})""")])
+
+# F12 reverted: PEP 604 unions fall through the vendored check_type
+SEEDS["C08_pep604_union_branch_removed"] = ("C08", [(TG, """    elif _UnionType is not None and isinstance(expected_type, _UnionType):
+        # PEP 604 unions (`int | str`) on Python 3.10+: not a class, and no `__origin__`
+        check_union(argname, value, expected_type, memo)
+""", "")], "C08.8")
 
 # ---- variants modelled on independent sub-agent seeds (see /verif/seeded/)
 SEEDS["C16_skip_already_seen_leaf_objects"] = ("C16", [(P, """        for leaf_index, leaf in enumerate(leaves):
